@@ -284,7 +284,16 @@ where
             if let Some(pos) = self.incomplete_pos.take() {
                 // resume incomplete search after previous read_record_set(), or
                 // after a seek() call.
-                if !try_opt!(self.resume_incomplete_search(pos, is_new)) {
+                let found = match self.resume_incomplete_search(pos, is_new) {
+                    Ok(found) => found,
+                    Err(e) => {
+                        if !self.defer_error(&e, rset) {
+                            return Some(Err(e));
+                        }
+                        break;
+                    }
+                };
+                if !found {
                     // end of input
                     if rset.buf_positions.is_empty() {
                         return None;
@@ -295,7 +304,16 @@ where
             } else {
                 // search the next complete record after `next()`, or in
                 // later iterations of this loop
-                if !try_opt!(self.search()) {
+                let found = match self.search() {
+                    Ok(found) => found,
+                    Err(e) => {
+                        if !self.defer_error(&e, rset) {
+                            return Some(Err(e));
+                        }
+                        break;
+                    }
+                };
+                if !found {
                     // At least one record must be present. If not, continue
                     // with `resume_incomplete_search()` in next iteration
                     if rset.buf_positions.is_empty() {
@@ -325,6 +343,19 @@ where
         rset.buffer.clear();
         rset.buffer.extend(self.get_buf());
         Some(Ok(()))
+    }
+
+    // If an invalid record is found after valid records have already been added
+    // to the record set, these are returned first (otherwise they would be lost).
+    // The reader is positioned at the invalid record, the next call reports the error.
+    fn defer_error(&mut self, err: &Error, rset: &RecordSet) -> bool {
+        let is_parse_error = !matches!(*err, Error::Io(_) | Error::BufferLimit);
+        if is_parse_error && !rset.buf_positions.is_empty() {
+            self.state = State::Positioned;
+            self.incomplete_pos = None;
+            return true;
+        }
+        false
     }
 
     #[inline(never)]
